@@ -35,6 +35,8 @@ class Spec2D:
         dcls = md.fvm2d if (self.nx + self.ny) % 2 else md.fvm2dcart          # alias and base class
         disc = dcls(model, m, num, bclist=self.bcl, numflux=self.flux)
         f = ffield.fdata(model, m, model.prim2cons(self.prim))
+        # deterministic (no rng here): a sixth of the problems hand the operator arrays with another memory layout
+        gen.exotic_layout(f, {0: 1, 1: 2, 2: 3}.get((3 * self.nx + self.ny) % 18, 0))
         return m, model, disc, f
 
     def rhs(self, model=None):
